@@ -19,7 +19,7 @@ WHOLE = ''
 # value-forwarding callees: result derives from the arguments and nothing else
 FORWARD = re.compile(
     r'NonZero::new$|NonZero::get$|NonZero::new_unchecked$|Option::unwrap$|Option::expect$|Result::unwrap$|Result::expect$'
-    r'|Option::unwrap_or$|Option::unwrap_or_default$|Option::or$|Option::and$'
+    r'|Option::unwrap_or$|Option::unwrap_or_default$|Option::or$|Option::and$|Option::as_ref$|Option::as_mut$|Option::copied$|Option::cloned$|Option::as_deref$|Option::take$'
     r'|convert::Into::into$|convert::From::from$|convert::TryFrom::try_from$|convert::TryInto::try_into$'
     r'|ToPrimitive::to_[a-z0-9]+$|FromPrimitive::from_[a-z0-9]+$|NumCast::from$'
     r'|clone::Clone::clone$|borrow::ToOwned::to_owned$|ops::Deref::deref$|ops::DerefMut::deref_mut$|borrow::Borrow::borrow$|convert::AsRef::as_ref$'
